@@ -322,6 +322,19 @@ def _run(ctx):
         sub = [x for x in gl.all_side_links(ids) if rng.random() < 0.4]
         R.graph(list(zip(ids, pick_seqs(rng, n))), decls(sub, i % 3), L, api_len=2, cli=(i % 3 == 0))
 
+    # 4c. long node sequences (added after seeded change C14-7: a block-wise reverse complement that loses the leftmost partial block of
+    # sequences longer than 65536): lengths around the powers of two, walks with '<' steps over a long and a short node
+    ks = range(8, 18) if quick else range(6, 21)
+    lens = sorted({(1 << k) + d for k in ks for d in (-1, 0, 1)} | {70001, 100003})
+    ctx.bound("long sequences: one 2-node graph per length in {2^k-1, 2^k, 2^k+1 : k = %d..%d} + {70001, 100003}; paths <a, >a>b, <b<a, <a>b (non-walk) against "
+              "an independent reverse complement; lower-case and N characters included" % (ks[0], ks[-1]))
+    for n in lens:
+        for p in ("<a", ">a>b", "<b<a", "<a>b"):
+            R._count("long-sequence", n, (p, n))
+            ok, what = long_case(R, n, n * 31 + 7, p)
+            if not ok:
+                ctx.fail("long-sequence", what, {"type": "long", "n": n, "rseed": n * 31 + 7, "path": p, "gfa": []})
+
     # 5. the real command line (stdout), a handful of invocations
     ctx.bound("%d real `python -m gaftools find_path` command lines (stdout, with and without -f, single path and file of paths)" % (4 if quick else 12))
     for i in range(1 if quick else 3):
@@ -341,6 +354,29 @@ def _run(ctx):
             "non-trivial when the sequence has >= 2 steps (%d of the multi-step sequences were walks)" % (R.n_graphs, L, R.n_walks))
 
 
+def long_case(R, n, rseed, p):
+    """graph a (n bases) -+/+-> b (5 bases); extract_path(p) against the speller below (sequence regenerated from rseed)"""
+    import random
+    r = random.Random(rseed)
+    a = "".join(r.choice("ACGTACGTACGTACGTNacgt") for _ in range(n))
+    b = "GATTC"
+    gfa = os.path.join(R.d, "long.gfa")
+    with open(gfa, "w") as f:
+        f.write("S\ta\t%s\nS\tb\t%s\nL\ta\t+\tb\t+\t0M\n" % (a, b))
+    comp = {"A": "T", "C": "G", "G": "C", "T": "A"}
+    rc = lambda x: "".join(comp.get(c, c) for c in reversed(x))  # noqa
+    want = {"<a": rc(a), ">a>b": a + b, "<b<a": rc(b) + rc(a), "<a>b": ""}[p]
+    try:
+        got = R.GFA(gfa).extract_path(p)
+    except Exception as e:  # noqa
+        return False, "extract_path(%r) with len(a) = %d raised %s: %s" % (p, n, type(e).__name__, e)
+    if got == want:
+        return True, "extract_path(%r) with len(a) = %d spelled correctly" % (p, n)
+    k = next((i for i, (x, y) in enumerate(zip(got, want)) if x != y), min(len(got), len(want)))
+    return False, ("extract_path(%r) on S a <%d bases, random.Random(%d) over ACGTNacgt>, S b GATTC, L a + b + returned %d characters, expected %d; first difference at "
+                   "position %d (%r vs %r)" % (p, n, rseed, len(got), len(want), k, got[k:k + 12], want[k:k + 12]))
+
+
 def _subsets(items):
     for k in range(len(items) + 1):
         for sub in itertools.combinations(items, k):
@@ -352,6 +388,8 @@ def replay(ctx, rec):
     logging.disable(logging.CRITICAL)
     try:
         c = rec["case"]
+        if c["type"] == "long":
+            return long_case(_Runner(ctx), c["n"], c["rseed"], c["path"])
         nodes, links = parse_gfa_lines(c["gfa"])
         og = oracle_graph(nodes, links)
         st = og.steps()
